@@ -220,4 +220,44 @@ theorem logPosterior_prob (p : Params ℝ) (hn : 0 < p.n) (hp : PosP p) (e0 : Em
     · exact ⟨hrow0a, hrow0b, hrow0c⟩
     · exact hrows3 row hrow
 
+/-! ### strictly positive tables: every scale factor is positive -/
+
+theorem PosP.nonneg {p : Params ℝ} (hp : PosP p) : NonNegP p := ⟨fun i j => le_of_lt (hp.1 i j), fun k => le_of_lt (hp.2 k)⟩
+theorem PosE.nonneg {e : Emis ℝ} (he : PosE e) : NonNegE e := fun j => le_of_lt (he j)
+
+theorem rescLoop_scales_pos (p : Params ℝ) (hn : 0 < p.n) (hp : PosP p) (rest : List (Site ℝ)) (hs : PosS rest)
+    (gh : Nat → ℝ) (hgh : ∀ j, 0 < gh j) :
+    ∀ x ∈ rescLoop p rest (vec p.n gh), 0 < x.2 := by
+  induction rest generalizing gh with
+  | nil => simp [rescLoop]
+  | cons s rest ih =>
+    obtain ⟨b, e⟩ := s
+    have he : PosE e := hs (b, e) (List.mem_cons_self)
+    have hs' : PosS rest := fun s hs'' => hs s (List.mem_cons_of_mem _ hs'')
+    have key : ∀ t : Nat → ℝ, (∀ j, 0 < t j) →
+        (∀ x ∈ (vec p.n (normF t (∑ i ∈ range p.n, t i)), ∑ i ∈ range p.n, t i)
+            :: rescLoop p rest (vec p.n (normF t (∑ i ∈ range p.n, t i))), 0 < x.2) := by
+      intro t ht x hx
+      have hc : 0 < ∑ i ∈ range p.n, t i := sum_pos_of_pos _ hn _ ht
+      rcases List.mem_cons.mp hx with rfl | hx
+      · exact hc
+      · exact ih hs' _ (fun j => by simp only [normF, hc, if_true]; exact div_pos (ht j) hc) x hx
+    cases b with
+    | true => rw [rescLoop_cons_true]; exact key _ (restartF_pos p hn hp e he)
+    | false =>
+      rw [rescLoop_cons_false p hp.nonneg e he.nonneg rest gh (fun j _ => le_of_lt (hgh j))]
+      exact key _ (stepF_pos p hn hp e he gh hgh)
+
+theorem rescForward_scales_pos (p : Params ℝ) (hn : 0 < p.n) (hp : PosP p) (e0 : Emis ℝ) (he0 : PosE e0)
+    (sites : List (Site ℝ)) (hs : PosS sites) : ∀ c ∈ (rescForward p e0 sites).scales, 0 < c := by
+  intro c hc
+  unfold rescForward at hc
+  simp only [List.mem_map] at hc
+  obtain ⟨x, hx, rfl⟩ := hc
+  have hnil : rescLoop p ((true, e0) :: sites) [] = rescLoop p ((true, e0) :: sites) (vec p.n (fun _ => (1:ℝ))) := by
+    simp only [rescLoop, rescTmp_true]
+  rw [hnil] at hx
+  exact rescLoop_scales_pos p hn hp ((true, e0) :: sites)
+    (by intro s hs'; rcases List.mem_cons.mp hs' with rfl | h; exact he0; exact hs s h) (fun _ => 1) (fun _ => one_pos) x hx
+
 end Bpp.Hmm
